@@ -26,7 +26,7 @@ func TestMain(m *testing.M) {
 	for _, k := range []string{"bitflip", "truncate", "extend", "hdr_type", "hdr_version", "hdr_len", "drop", "duplicate", "swap", "replay_other_dir", "replay_preccs", "replay_other_conn", "cut", "pad_valid", "pad_corrupt"} {
 		R.Require("fault:" + k)
 	}
-	R.Require("padmax:255", "padmax:240", "suite:e013", "suite:e053", "dir:c2s", "dir:s2c", "control_tls12", "padlen_all_16", "bitflip_exhaustive_done")
+	R.Require("long_session", "padmax:255", "padmax:240", "suite:e013", "suite:e053", "dir:c2s", "dir:s2c", "control_tls12", "padlen_all_16", "bitflip_exhaustive_done")
 	hx.Main(m, R)
 }
 
@@ -430,6 +430,44 @@ func checkFreshness(t interface{ Fatalf(string, ...any) }, d *rgmssl.Decoded, de
 				prevNonce = n
 			}
 		}
+	}
+}
+
+// sessions long enough for the implicit sequence number (and the GCM explicit nonce) to carry into its second byte
+// (quick: 700 records per direction) and third byte (thorough: 70000): every record is opened by the independent
+// decoder under its own count, so a counter that mis-carries is rejected there
+func TestC07_LongSessions(t *testing.T) {
+	p := tlsx.GetPKI()
+	nrec := 700
+	if hx.Thorough() {
+		nrec = 70000
+	}
+	for _, suite := range []uint16{tlsx.GMECCSM4CBCSM3, tlsx.GMECCSM4GCMSM3} {
+		if hx.Shards() > 1 && int(suite)%hx.Shards()%2 != hx.Shard()%2 {
+			continue
+		}
+		ccfg, scfg := configs(sess{Suite: suite}, fmt.Sprint("long", suite))
+		writes := nrec
+		if suite == tlsx.GMECCSM4CBCSM3 {
+			writes = nrec / 2 // 1/n-1 splitting: two records per 2-byte write
+		}
+		data := make([]byte, 2*writes)
+		gen.Fill(data, uint64(suite))
+		frags := []int{2}
+		r := tlsx.Run(ccfg, scfg, tlsx.Script{ClientSend: data, ClientFrags: frags, ServerSend: data[:len(data)/2*2], ServerFrags: frags})
+		desc := fmt.Sprintf("long session suite=%x writes=%d %s", suite, writes, r.Describe())
+		if r.Client.HSErr != nil || r.Server.HSErr != nil || !bytes.Equal(r.Server.Received, data) || !bytes.Equal(r.Client.Received, data) {
+			t.Fatalf("long session failed\n%s", desc)
+		}
+		d, err := rgmssl.Decode(r.Log, p.SrvEnc.SM2D, nil)
+		if err != nil {
+			t.Fatalf("the independent decoder rejects a record of a long session (sequence numbers beyond 255?): %v\n%s", err, desc)
+		}
+		if len(d.ClientRecs) < nrec || len(d.ServerRecs) < nrec {
+			t.Fatalf("harness: only %d / %d records in the long session", len(d.ClientRecs), len(d.ServerRecs))
+		}
+		checkFreshness(t, d, desc)
+		R.Case(true, hx.HashKey("long", suite, nrec), "long_session", fmt.Sprintf("suite:%x", suite))
 	}
 }
 
